@@ -1,9 +1,11 @@
 (* C11 -- any byte string as input file is handled cleanly: failure, no crash, no output.
    The model's Crash / Hang results stand for the undefined behaviours of the C++ (NULL mode or
-   hash object, out-of-bounds pad read, size underflow, zero-block READY buffer); the theorems
-   say they do not occur on the property's domain.  Memory safety of the C++ itself is not a
-   Coq statement: the correspondence run executes the malformed stream under ASan/UBSan. *)
-From Wencry Require Import Bytes FileModel FileSpec FileProps FileProofsSec.
+   hash object, a READY buffer without blocks; before the repair of iobuffer::export_buffer also
+   the out-of-bounds pad read and the size underflow); the theorems say they do not occur -- since
+   the repairs of export_buffer and load_buffer on EVERY byte string and key (C11_decrypt_total),
+   not only on the property's domain.  Memory safety of the C++ itself is not a Coq statement: the correspondence run
+   executes the malformed stream under ASan/UBSan. *)
+From Wencry Require Import Bytes FileModel FileSpec FileProps FileProofsSec FileProofsTotal.
 Local Open Scope N_scope.
 
 (* verification of ANY byte string under any key terminates with a result code 0..4 *)
@@ -35,3 +37,25 @@ Theorem C11_output_bounded_by_body : forall c hbuf T F key out,
   dec c hbuf T F key = Ok out -> (length out <= length F - text_mark T)%nat.
 Proof. exact C11_output_bounded_by_body_proof. Qed.
 Print Assumptions C11_output_bounded_by_body.
+
+(* decryption of ANY byte string under ANY key, chunk size and thread count ends in success (output
+   bounded by the body) or in a clean failure with verify's code: never Crash, never Hang *)
+Theorem C11_decrypt_total : forall c hbuf T F key,
+  (1 <= c)%nat -> (1 <= hbuf)%nat -> (1 <= T)%nat -> N.of_nat (length F) < 2 ^ 56 ->
+  (exists out, dec c hbuf T F key = Ok out /\ (length out <= length F - text_mark T)%nat) \/
+  (exists code, 1 <= code <= 4 /\ dec c hbuf T F key = Fail code).
+Proof. exact C11_decrypt_total_proof. Qed.
+Print Assumptions C11_decrypt_total.
+
+(* the new generality is inhabited: authentic files (tag computed by the model's own hmac_model) that no
+   encryption produces -- 74 bytes, shorter than text_mark 2 = 88; a body of 6 bytes -- are accepted and
+   decrypt to the empty output; a ragged body (one chunk of 4 blocks and 5 more bytes) decrypts to the chunk *)
+Example C11_decrypt_total_beyond_enc :
+  (length tot_F_short < text_mark 2)%nat /\
+  ver 4 tot_F_short tot_key = Ok true /\ dec 4 4 2 tot_F_short tot_key = Ok nil /\
+  (~ exists P seed cm hm, enc_params 4 4 2 P tot_key seed cm hm /\ enc 4 4 2 P tot_key cm hm seed = Ok tot_F_short) /\
+  ver 4 tot_F_empty tot_key = Ok true /\ dec 4 4 1 tot_F_empty tot_key = Ok nil /\
+  (~ exists P seed cm hm, enc_params 4 4 1 P tot_key seed cm hm /\ enc 4 4 1 P tot_key cm hm seed = Ok tot_F_empty) /\
+  ver 4 tot_F_ragged tot_key = Ok true /\ dec 4 4 1 tot_F_ragged tot_key = Ok tot_chunk /\
+  (~ exists P seed cm hm, enc_params 4 4 1 P tot_key seed cm hm /\ enc 4 4 1 P tot_key cm hm seed = Ok tot_F_ragged).
+Proof. exact (proj2 (proj2 (proj2 (proj2 C11_decrypt_total_nonvacuous)))). Qed.
